@@ -87,8 +87,8 @@ theorem C17_forgotten_member_resets (stopping : Bool) (e : GErr) (h : forgetsMem
 /-! Non-vacuity: an event list with failures at several steps of the join protocol that satisfies
 the hypothesis, on which the member is NOT trivially idle-free (it goes through retry timers). -/
 def exFaults : List Ev :=
-  [.start, .coordDone (.err .coordinatorNotAvailable), .advance 1, .fire 0, .coordDone .ok, .metaDone (.err .kafkaUnavailable),
-   .advance 10, .fire 1, .coordDone .ok, .metaDone .ok, .joinDone (.err .unknownMemberId)]
+  [.start, .coordDone (.err .coordinatorNotAvailable), .advance 1, .fire 0 none, .coordDone .ok, .metaDone (.err .kafkaUnavailable),
+   .advance 10, .fire 1 none, .coordDone .ok, .metaDone .ok, .joinDone (.err .unknownMemberId)]
 example : noNonKafkaEscape exFaults = true := by decide
 example : ((final exCfg exFaults).timers.map fun t => (t.id, t.kind)) = [(2, .rejoin)] := by decide +kernel
 
